@@ -126,4 +126,27 @@ theorem parseFrameSt_discover (c : Cfg) (g : Glob) (w : World) (st : St) (img : 
     · simp [parseFrameSt, h0, hop, hm]
     · simp [parseFrameSt, h1, hop, hm]
 
+/-! ## Dispatch: parseFrameSt as a function of (type of service, opcode) -/
+
+theorem dispatch_tos0 (c : Cfg) (g : Glob) (w : World) (st : St) (img : List Nat) (ht : fTos img = 0) (hop : fOpcode img ≠ 0) :
+    parseFrameSt c g w st img =
+      if fOpcode img = 2 then parseEmit c w st img
+      else if fOpcode img = 3 ∨ fOpcode img = 4 then parseProbe c w st img
+      else if fOpcode img = 6 then parseQuery c w st img
+      else if fOpcode img = 11 then parseQueryLargeTlv c g w st img
+      else if fOpcode img = 8 then { st := resetSt st, w := resetWorld w st, fx := [] }
+      else { st := st, w := w, fx := [] } := by
+  simp [parseFrameSt, ht, hop]
+
+theorem dispatch_tos1 (c : Cfg) (g : Glob) (w : World) (st : St) (img : List Nat) (ht : fTos img = 1) (hop : fOpcode img ≠ 0) :
+    parseFrameSt c g w st img =
+      if fOpcode img = 11 then parseQueryLargeTlv c g w st img
+      else if fOpcode img = 8 then { st := { st with known := false, genQuick := 0 }, w := w, fx := [] }
+      else { st := st, w := w, fx := [] } := by
+  simp [parseFrameSt, ht, hop]
+
+theorem dispatch_other (c : Cfg) (g : Glob) (w : World) (st : St) (img : List Nat) (h0 : fTos img ≠ 0) (h1 : fTos img ≠ 1) :
+    parseFrameSt c g w st img = { st := st, w := w, fx := [] } := by
+  simp [parseFrameSt, h0, h1]
+
 end LLTD
